@@ -145,6 +145,21 @@ class Compiler:
         [OpCode.JUMP, OpCode.JUMP_IF_FALSE, OpCode.JUMP_IF_TRUE, OpCode.TRY_START]
     )
 
+    # Binary opcode for each compound assignment operator (without the '=')
+    _COMPOUND_OPS = {
+        "+": OpCode.ADD,
+        "-": OpCode.SUB,
+        "*": OpCode.MUL,
+        "/": OpCode.DIV,
+        "%": OpCode.MOD,
+        "&": OpCode.BAND,
+        "|": OpCode.BOR,
+        "^": OpCode.BXOR,
+        "<<": OpCode.SHL,
+        ">>": OpCode.SHR,
+        ">>>": OpCode.USHR,
+    }
+
     def _emit(self, opcode: OpCode, arg: Optional[int] = None) -> int:
         """Emit an opcode, return its position."""
         pos = len(self.bytecode)
@@ -1511,7 +1526,13 @@ class Compiler:
                 else:
                     idx = self._add_constant(node.left.property.name)
                     self._emit(OpCode.LOAD_CONST, idx)
+                if node.operator != "=":
+                    # Compound assignment: read the current value first
+                    self._emit(OpCode.DUP2)  # [obj, prop, obj, prop]
+                    self._emit(OpCode.GET_PROP)  # [obj, prop, old_value]
                 self._compile_expression(node.right)
+                if node.operator != "=":
+                    self._emit(self._COMPOUND_OPS[node.operator[:-1]])
                 self._emit(OpCode.SET_PROP)
 
         elif isinstance(node, SequenceExpression):
